@@ -24,3 +24,10 @@ reg("C17", "^TestC17$", q=(4000, 1, 300), t=(50000, 16, 1800),
          "last block, exactly the events of the kept blocks in order; big-int gap).",
     note="Trusted: EstimatedSize as the definition of size (its monotonicity is checked); refusals of the last-block limiter are accepted as policy, only wrong cuts are violations.",
     design="§3 C17")
+
+reg("C01", "^TestC01", q=(600, 1, 600), t=(4000, 16, 3000), batch=300,
+    technique="property-based testing: rapid-generated deposit histories (fields, block partitions, restarts, synthetic high-index frontiers) against a reference deposit-contract frontier; differential run against the real bridge contract in an in-process EVM",
+    text="Exploration: the real bridge processor (and, in the EVM leg, the public NewL1 syncer on a simulated chain with the real "
+         "PolygonZkEVMBridgeV2 bytecode) is compared, deposit by deposit, with the contract's algorithm/contract itself.",
+    note="Trusted: ref.Frontier/BridgeLeaf (mirrors of DepositContractBase/getLeafValue, tied to the real contract by the EVM leg); go-ethereum simulated backend; indices >= 2^16 only via synthetic pre-states.",
+    design="§3 C01")
